@@ -46,6 +46,7 @@ type fullState struct {
 	Heb   [][2]int64         `json:"heb"`
 	W     []wRec             `json:"w"`
 	Deg   map[string]int     `json:"deg"`
+	UFrom map[string][]int64 `json:"ufrom"`
 }
 
 type opRec struct {
@@ -131,6 +132,8 @@ type live struct {
 	m2r  map[int64]int64
 	r2m  map[int64]int64
 	note []string
+	// derived: this wrapper holds a copy being checked; do not derive further graphs from it
+	derived bool
 }
 
 func newLive(k *kind) *live {
@@ -502,6 +505,59 @@ func (l *live) checkState(st *fullState, ids []int64) []string {
 			}
 		}); o.Panicked {
 			bad("NewNode() panicked: %s", o.Text)
+		}
+	}
+	// derived graphs: the undirected projection of a directed graph, and copies
+	if !l.derived {
+		if d, ok := g.(graph.Directed); ok && st.UFrom != nil {
+			u := graph.Undirect{G: d}
+			for _, m := range ids {
+				r := l.real(m)
+				want := setOf(st.UFrom[fmt.Sprint(m)])
+				got := l.drainNodes(fmt.Sprintf("Undirect.From(%d)", m), u.From(r), &errs)
+				if !eqSet(got, want) {
+					bad("Undirect.From(%d) = %s, model %s", m, fmtSet(got), fmtSet(want))
+				}
+				for _, mv := range ids {
+					v := l.real(mv)
+					k := edgeKey{m, mv}
+					if got := u.HasEdgeBetween(r, v); got != heb[k] {
+						bad("Undirect.HasEdgeBetween(%d,%d) = %v, model %v", m, mv, got, heb[k])
+					}
+					if e := u.EdgeBetween(r, v); (e != nil) != heb[k] {
+						bad("Undirect.EdgeBetween(%d,%d) non-nil = %v, model %v", m, mv, e != nil, heb[k])
+					}
+				}
+			}
+			if wd, ok := g.(graph.WeightedDirected); ok {
+				uw := graph.UndirectWeighted{G: wd, Absent: l.absent()}
+				for _, m := range ids {
+					want := setOf(st.UFrom[fmt.Sprint(m)])
+					got := l.drainNodes(fmt.Sprintf("UndirectWeighted.From(%d)", m), uw.From(l.real(m)), &errs)
+					if !eqSet(got, want) {
+						bad("UndirectWeighted.From(%d) = %s, model %s", m, fmtSet(got), fmtSet(want))
+					}
+				}
+			}
+		}
+		if l.k.dense == 0 {
+			var dst graph.Graph
+			errc := core.Call(func() {
+				dst = l.k.mk()
+				if wg, ok := g.(graph.Weighted); ok && l.k.weighted {
+					graph.CopyWeighted(dst.(graph.WeightedBuilder), wg)
+				} else {
+					graph.Copy(dst.(graph.Builder), g)
+				}
+			})
+			if errc.Panicked {
+				bad("graph.Copy panicked: %s", errc.Text)
+			} else {
+				l2 := &live{k: l.k, g: dst, m2r: l.m2r, r2m: l.r2m, derived: true}
+				for _, e := range l2.checkState(st, ids) {
+					bad("graph.Copy: %s", e)
+				}
+			}
 		}
 	}
 	// edge set
